@@ -75,25 +75,30 @@ Proof.
 Qed.
 
 (* the delivery loop: the table stays a table, entries of connections whose writes do not fail with
-   io.EOF stay, no entry appears, and the pending single failures only go away *)
+   io.EOF stay, no entry appears *)
 Lemma emit_go_inv snap : forall t bad once, Uniq t ->
-  let '(t', o', _) := emit_go snap t bad once in
-  Uniq t' /\ (forall x, In x t -> bad_of bad (u_conn x) = None -> In x t') /\
-  (forall u, In u t' -> In u t) /\ (forall c, ~ In c once -> ~ In c o').
+  let '(t', _) := emit_go snap t bad once in
+  Uniq t' /\ (forall x, In x t -> bad_of bad (u_conn x) = None -> In x t') /\ (forall u, In u t' -> In u t).
 Proof.
   induction snap as [|u r IH]; intros t bad once U; cbn [emit_go]; [auto|].
   destruct (bad_of bad (u_conn u)) as [k|] eqn:B.
   - destruct (k =? 1).
     + specialize (IH (drop_user t (u_conn u) (u_uid u)) bad once (uniq_drop_user _ _ _ U)).
-      destruct (emit_go r (drop_user t (u_conn u) (u_uid u)) bad once) as [[t' o'] l].
-      destruct IH as (U' & K & S & O). repeat split; [exact U'| | |exact O].
+      destruct (emit_go r (drop_user t (u_conn u) (u_uid u)) bad once) as [t' l].
+      destruct IH as (U' & K & S). repeat split; [exact U'| |].
       * intros x Hx Hb. apply K; [|exact Hb]. apply drop_user_keeps; [exact U|exact Hx|]. intro E. congruence.
       * intros v Hv. apply (drop_user_subset t (u_conn u) (u_uid u)); [exact U|]. now apply S.
     + exact (IH t bad once U).
-  - destruct (existsb (Nat.eqb (u_conn u)) once).
-    + specialize (IH t bad (del1 (u_conn u) once) U). destruct (emit_go r t bad (del1 (u_conn u) once)) as [[t' o'] l].
-      destruct IH as (U' & K & S & O). repeat split; [exact U'|exact K|exact S|]. intros c Hc. apply O. now apply del1_notin.
-    + specialize (IH t bad once U). destruct (emit_go r t bad once) as [[t' o'] l]. exact IH.
+  - destruct (existsb (Nat.eqb (u_conn u)) once); [exact (IH t bad once U)|].
+    specialize (IH t bad once U). destruct (emit_go r t bad once) as [t' l]. exact IH.
+Qed.
+
+(* the pending transient failures only go away *)
+Lemma once_after_notin snap bad c : forall hit once, ~ In c once -> ~ In c (once_after snap bad hit once).
+Proof.
+  induction snap as [|u r IH]; intros hit once H; cbn [once_after]; [exact H|].
+  destruct (bad_of bad (u_conn u)); [now apply IH|].
+  destruct (existsb (Nat.eqb (u_conn u)) hit); apply IH; [exact H|now apply del1_notin].
 Qed.
 
 (* ... and every entry of the snapshot whose connection is healthy is written to *)
@@ -104,12 +109,11 @@ Proof.
   destruct Hx as [->|Hx].
   - rewrite Hb. destruct (existsb (Nat.eqb (u_conn x)) once) eqn:E.
     + exfalso. apply existsb_exists in E. destruct E as (c & Hc & Ec). apply Nat.eqb_eq in Ec. subst c. exact (Ho Hc).
-    + destruct (emit_go r t bad once) as [[t' o'] l]. now left.
+    + destruct (emit_go r t bad once) as [t' l]. now left.
   - destruct (bad_of bad (u_conn u)) as [k|].
     + destruct (k =? 1); now apply IH.
-    + destruct (existsb (Nat.eqb (u_conn u)) once).
-      * apply IH; [exact Hx|exact Hb|]. now apply del1_notin.
-      * specialize (IH t bad once x Hx Hb Ho). destruct (emit_go r t bad once) as [[t' o'] l]. now right.
+    + destruct (existsb (Nat.eqb (u_conn u)) once); [now apply IH|].
+      specialize (IH t bad once x Hx Hb Ho). destruct (emit_go r t bad once) as [t' l]. now right.
 Qed.
 
 (* nothing is ever written to a connection every write to which fails *)
@@ -119,12 +123,12 @@ Proof.
   destruct (bad_of bad (u_conn u)) as [k|] eqn:B.
   - destruct (k =? 1); now apply IH.
   - destruct (existsb (Nat.eqb (u_conn u)) once); [now apply IH|].
-    specialize (IH t bad once c m Hb). destruct (emit_go r t bad once) as [[t' o'] l]. cbn [snd] in *.
+    specialize (IH t bad once c m Hb). destruct (emit_go r t bad once) as [t' l]. cbn [snd] in *.
     intros [E|Hin]; [|exact (IH Hin)]. injection E as E _. rewrite E in B. exact (Hb B).
 Qed.
 
 (* with every connection in good health the loop is the plain fan-out over the snapshot *)
-Lemma emit_go_healthy snap t : emit_go snap t [] [] = (t, [], map (fun u => (u_conn u, u_mid u)) snap).
+Lemma emit_go_healthy snap t : emit_go snap t [] [] = (t, map (fun u => (u_conn u, u_mid u)) snap).
 Proof. induction snap as [|u r IH]; [reflexivity|]. cbn [emit_go bad_of existsb]. now rewrite IH. Qed.
 
 Lemma bad_of_break bad c c' k : c' <> c -> bad_of ((c', k) :: bad) c = bad_of bad c.
@@ -146,7 +150,7 @@ Proof.
     destruct (find_idx_some _ _ _ F) as (e & He & _). split; [|reflexivity].
     exact (proj1 (uniq_swap_remove _ _ _ U He)).
   - pose proof (emit_go_inv (filter (fun u => u_sig u =? sig) (r_table st)) (r_table st) (r_bad st) (r_once st) U) as I.
-    destruct (emit_go _ _ _ _) as [[t' o'] l]. cbn. split; [exact (proj1 I)|assumption || reflexivity].
+    destruct (emit_go _ _ _ _) as [t' l]. cbn. split; [exact (proj1 I)|assumption || reflexivity].
   - cbn. auto.
 Qed.
 
@@ -167,8 +171,8 @@ Proof.
     destruct (proj2 (proj2 (uniq_swap_remove _ _ _ U He)) x Hx) as [->|Hin]; [|exact Hin].
     exfalso. apply is_user_key in Fe. unfold ukey in Fe. injection Fe as <- <-. exact (No sig eq_refl).
   - pose proof (emit_go_inv (filter (fun u => u_sig u =? sig) (r_table st)) (r_table st) (r_bad st) (r_once st) U) as I.
-    destruct (emit_go _ _ _ _) as [[t' o'] l]. destruct I as (_ & K & _ & O). cbn.
-    split; [exact (K x Hx Hb)|]. split; [exact Hb|exact (O _ Ho)].
+    destruct (emit_go _ _ _ _) as [t' l]. destruct I as (_ & K & _). cbn.
+    split; [exact (K x Hx Hb)|]. split; [exact Hb|now apply once_after_notin].
   - assert (Ne : c <> u_conn x) by (intro E; subst c; exact (Nb k eq_refl)).
     cbn. split; [exact Hx|]. split; cbn.
     + destruct ((k =? 0) || (k =? 1) || (k =? 2)); [rewrite bad_of_break by exact Ne|]; exact Hb.
@@ -202,13 +206,7 @@ Proof.
   intros [Hb Ho] Nb. destruct o as [c' m sig uid|c' sig uid|sig p|c' k]; cbn [raw_step].
   - destruct (r_dead st); [split; assumption|]. destruct (find_idx _ _); [destruct (dup_relock g)|]; split; assumption.
   - destruct (r_dead st); [split; assumption|]. destruct (find_idx _ _); split; assumption.
-  - assert (O : forall snap t bad once, ~ In c once -> ~ In c (snd (fst (emit_go snap t bad once)))).
-    { induction snap as [|u r IH]; intros t bad once H; cbn [emit_go]; [exact H|].
-      destruct (bad_of bad (u_conn u)) as [k|]; [destruct (k =? 1); now apply IH|].
-      destruct (existsb _ once); [apply IH; now apply del1_notin|].
-      specialize (IH t bad once H). destruct (emit_go r t bad once) as [[t' o'] l]. exact IH. }
-    specialize (O (filter (fun u => u_sig u =? sig) (r_table st)) (r_table st) (r_bad st) (r_once st) Ho).
-    destruct (emit_go _ _ _ _) as [[t' o'] l]. split; [exact Hb|exact O].
+  - destruct (emit_go _ _ _ _) as [t' l]. split; [exact Hb|cbn; now apply once_after_notin].
   - assert (Ne : c' <> c) by (intro E; subst c'; exact (Nb k eq_refl)). split; cbn.
     + destruct ((k =? 0) || (k =? 1) || (k =? 2)); [rewrite bad_of_break by exact Ne|]; exact Hb.
     + destruct (k =? 3); [|exact Ho]. intros [E|Hin]; [exact (Ne E)|exact (Ho Hin)].
@@ -274,7 +272,7 @@ Proof.
   set (st := raw_run g rinit (pre ++ RReg c m sig uid :: post)) in *. cbn [raw_step].
   pose proof (emit_go_sends (filter (fun u => u_sig u =? sig) (r_table st)) (r_table st) (r_bad st) (r_once st)
                 {| u_uid := uid; u_sig := sig; u_mid := m; u_conn := c |}) as S. cbn [u_conn u_mid] in S.
-  destruct (emit_go _ _ _ _) as [[t' o'] l]. cbn [snd] in *. exists l. split; [reflexivity|].
+  destruct (emit_go _ _ _ _) as [t' l]. cbn [snd] in *. exists l. split; [reflexivity|].
   apply S; [|exact Hb|exact Ho]. apply filter_In. split; [exact Hin|]. cbn. apply N.eqb_refl.
 Qed.
 
@@ -303,7 +301,7 @@ Proof.
   destruct G as [Gu Gd]. destruct o as [c m sig uid|c sig uid|sig p|c k]; cbn [raw_step].
   - destruct (r_dead st); [discriminate|]. destruct (find_idx _ _); [rewrite Gd; reflexivity|discriminate].
   - destruct (r_dead st); [discriminate|]. destruct (find_idx _ _); [discriminate|reflexivity].
-  - destruct (emit_go _ _ _ _) as [[t' o'] l]. discriminate.
+  - destruct (emit_go _ _ _ _) as [t' l]. discriminate.
   - discriminate.
 Qed.
 
@@ -313,7 +311,7 @@ Lemma raw_bad_gets_nothing st sig p c m l : bad_of (r_bad st) c <> None ->
 Proof.
   intros Hb. cbn [raw_step].
   pose proof (emit_go_bad (filter (fun u => u_sig u =? sig) (r_table st)) (r_table st) (r_bad st) (r_once st) c m Hb) as E.
-  destruct (emit_go _ _ _ _) as [[t' o'] l']. cbn [snd] in *. intros [= <-]. exact E.
+  destruct (emit_go _ _ _ _) as [t' l']. cbn [snd] in *. intros [= <-]. exact E.
 Qed.
 End Raw.
 
